@@ -13,6 +13,19 @@ peak function, the response-history stores and the `return`:
   * option strings are values: a parameter seeded with the string 'steady' makes `ic == "steady"`, `ic != "zero"`, `ic in (...)`,
     `isinstance(peak, str)` and `TABLE[ic]` decidable; constants decide comparisons; a test that stays undecided is explored both ways by
     `explore()` (arms that only `raise` are not explored: they return nothing);
+  * arrays and dictionaries that are filled by subscript stores are *objects with a name of their own*: a local of an inlined helper gets a name built
+    from the call path (`out@_zeros/1076.31`), its creation is in env["<init:name>"], its stores in `cells` under that name; a caller's name bound to
+    what the helper returns denotes that object (`resp, hist = _init_resp(...)`; `resp["hist"] = ...` afterwards continues the same object), a helper's
+    array *parameter* denotes the caller's object.  So a dictionary or array built in a helper - under whatever name - and one built in place give the
+    same entries;
+  * module state: names declared `global` and bound in an initializer (or in a helper it calls) are visible in the worker and in the helpers the worker
+    calls (`Sem3(..., module_state=...)`);
+  * module-level constants may be bound to any control-flow-free expression (`dict(abs=_absmeth, ...)`, `dict(zip(KEYS, FUNCS))`, tuples, messages);
+    literal tables are looked up with string, integer, bool and None keys; `(a, b)[flag]` / `[a, b][1 if flag else 0]` select by a decided value;
+    tuple / list *displays* concatenate with `+` / `+=` (`result += (resp,)`) and splice with `*`; `bool(x)` / `int(flag)` of a decided value are decided;
+  * counted `while k < n: ...; k += 1` loops are evaluated once for a generic k like `for k in range(n)`; `for k, x in zip(range(n), X)` binds x = idx(X, k);
+    `try` bodies are evaluated on the path on which nothing is raised; an inlined helper whose `return` sits in a construct that is not evaluated gives
+    Unknown (never None);
   * array bookkeeping is normalised: `X.shape[0]`, `len(X)`, `np.shape(X)[0]` are rows(X) with rows(vstack((A, B))) = rows(A) + rows(B) and
     rows(zeros((n, H))) = n; reductions in method or function form; `(m).nonzero()[0]`, `np.nonzero(m)[0]`, `np.where(m)[0]`,
     `np.flatnonzero(m)` select by the mask m; `.T`, `np.transpose`, `.reshape`, `.ravel` do not change an element-wise value.
@@ -466,8 +479,12 @@ class Ev3(AutoEvaluator):
                 if isinstance(n, ast.Subscript) and isinstance(n.ctx, ast.Store) and isinstance(n.value, ast.Name):
                     self.buffers.add(n.value.id)
         self.bufmap = {}      # source name of a buffer of this function -> name of the array object it denotes (itself unless rebound / inlined)
+        self.shared = set()   # source names of buffers that currently denote an object of the caller / of a callee / of another name
         self.foreign = set()  # names of array objects created in inlined callees (their stores are in self.cells, their creation in <init:name>)
-        self.fresh = [0]      # counter shared with the evaluators of inlined callees
+        self.globals = {}     # module state: values bound to names declared `global` (shared by reference with the evaluators of inlined callees)
+        self.global_names = set()
+        self.chain = ""       # call sites through which this evaluator was reached: names of callee-local array objects are unique per call path and
+                              # the same in every evaluation of the same source (rules compare values of two evaluations with each other)
 
     def bname(self, name):
         """name of the array object the buffer `name` of this function denotes"""
@@ -482,6 +499,8 @@ class Ev3(AutoEvaluator):
         if isinstance(node, ast.Name) and node.id in self.buffers:
             b = self.bname(node.id)
             return self.env.get("<cur:%s>" % b, F.sym(b))
+        if isinstance(node, ast.Name) and node.id not in self.env and node.id in self.globals:
+            return self.globals[node.id]          # a module-level name another function (or the rule) bound: a worker global
         if isinstance(node, ast.Subscript):
             for h in tuple(self.sub_hooks) + (array_subscript,):
                 r = h(node, self)
@@ -618,6 +637,9 @@ class Ev3(AutoEvaluator):
                 self.env[ctr] = F.sym(ctr)
                 self.run(st.body)
                 return
+        if isinstance(st, ast.Global):
+            self.global_names.update(st.names)
+            return
         if isinstance(st, ast.Try):
             # the path on which nothing is raised: body, else, finally (the handlers belong to the exceptional paths)
             self.run(st.body)
@@ -719,19 +741,22 @@ class Ev3(AutoEvaluator):
             for k, e in enumerate(target.elts):
                 self._assign(e, F.fn("idx", need(v), F.const(k)), st)
             return
+        if isinstance(target, ast.Name) and target.id in self.global_names:
+            self.globals[target.id] = v
         if isinstance(target, ast.Name) and target.id in self.buffers:
             b = self.bname(target.id)
             other = sym_of(v)
             if other is not None and other != b and self.is_array_object(other):
                 self.bufmap[target.id] = other                 # X = helper(...) / X = Y: the name now denotes that array object
+                self.shared.add(target.id)
             elif not is_unknown(v) and not isinstance(v, (tuple, DictValue)) and depends(v, b):
                 self.env["<cur:%s>" % b] = v                   # X = X.ravel() / X /= Q : the same array, transformed
             else:
-                if b != target.id or any(self.bname(o) == b for o in self.buffers if o != target.id):
-                    # the name denoted an object shared with a callee or with another name: from here on it denotes a new one
-                    self.fresh[0] += 1
-                    b = "%s@%d" % (target.id, self.fresh[0])
+                if target.id in self.shared or any(self.bname(o) == b for o in self.buffers if o != target.id):
+                    # the name denoted an object shared with the caller, a callee or another name: from here on it denotes a new one
+                    b = "%s@%s/%s" % (target.id, self.chain, getattr(st, "lineno", 0))
                     self.bufmap[target.id] = b
+                    self.shared.discard(target.id)
                 self.env.pop("<cur:%s>" % b, None)
                 self.env["<init:%s>" % b] = v
             return
@@ -863,7 +888,8 @@ class Ev3(AutoEvaluator):
         sub.hooks, sub.sub_hooks, sub.raise_only, sub.explore_hook = self.hooks, self.sub_hooks, self.raise_only, self.explore_hook
         sub.loop_unroll, sub.loop_once, sub.forward_stores, sub.erase_T = self.loop_unroll, self.loop_once, self.forward_stores, self.erase_T
         sub.seq = self.seq
-        sub.fresh = self.fresh
+        sub.globals = self.globals
+        sub.chain = "%s/%s.%s" % (self.chain, getattr(node, "lineno", 0), getattr(node, "col_offset", 0))
         sub.foreign = set(self.foreign) | {self.bname(b) for b in self.buffers}
         # the arrays the callee fills by subscript stores: a parameter is the caller's array object when the argument is one symbol (the stores are
         # recorded under the caller's name, whatever the callee calls it), otherwise an object of its own whose current value is the argument;
@@ -874,12 +900,12 @@ class Ev3(AutoEvaluator):
             cn = sym_of(pv) if pv is not None else None
             if cn is not None and cn not in ("None", "True", "False") and str_of(pv) is None:
                 sub.bufmap[b] = cn
+                sub.shared.add(b)
                 for k in ("<cur:%s>" % cn, "<init:%s>" % cn):
                     if k in self.env:
                         sub.env[k] = self.env[k]
             else:
-                self.fresh[0] += 1
-                sub.bufmap[b] = "%s@%d" % (b, self.fresh[0])
+                sub.bufmap[b] = "%s@%s%s" % (b, fn.name, sub.chain)
                 if pv is not None and not is_unknown(pv) and not isinstance(pv, (tuple, DictValue)):
                     sub.env["<cur:%s>" % sub.bufmap[b]] = pv
                     through[sub.bufmap[b]] = pv
@@ -989,7 +1015,7 @@ class Sem3:
     """one evaluation of `fn` on symbols (see sem.Sem); parameters are symbols of their own names unless `env` says otherwise"""
 
     def __init__(self, ctx, fn, rel, cond=None, env=None, hooks=(), sub_hooks=(), explore_hook=None, inline=True, run=True, stmts=None, seed_params=True,
-                 exclude=()):
+                 exclude=(), module_state=None):
         self.ctx = ctx
         self.fn = fn
         e = {}
@@ -1009,6 +1035,7 @@ class Sem3:
         self.ev.hooks = tuple(hooks)
         self.ev.sub_hooks = tuple(sub_hooks)
         self.ev.explore_hook = explore_hook
+        self.ev.globals = dict(module_state or {})       # values of module-level names (worker globals), visible in the helpers the function calls too
         self.ev.raise_only = ro if fn in table.values() else ro | raise_only_tests([fn])
         if run:
             self.ev.run(fn.body if stmts is None else stmts)
